@@ -162,6 +162,19 @@ func (s *kvSubj[K]) ModelSize() int { return len(s.ents) }
 func (s *kvSubj[K]) Fresh() Subject { return newKVSubj(s.cfg, s.d, s.vd, s.calls != nil) }
 func (s *kvSubj[K]) Drain() string  { return "" }
 
+// samePair: the pair a PutSame writes - the value the key holds already (an identical pair: nothing should change),
+// every other time under the very key the model remembers rather than the table's spelling of it.
+func (s *kvSubj[K]) samePair(op Op) (K, string) {
+	k := s.d.At(op.A[0])
+	if i := s.findKey(k); i >= 0 {
+		if op.ID%2 == 0 {
+			k = s.ents[i].k
+		}
+		return k, s.ents[i].v
+	}
+	return k, "v" + strconv.Itoa(op.ID)
+}
+
 func (s *kvSubj[K]) val(op Op) string {
 	if len(op.A) < 2 || op.A[1] < 0 {
 		return "v" + strconv.Itoa(op.ID)
@@ -214,6 +227,9 @@ func (s *kvSubj[K]) ModelApply(op Op) {
 	switch op.N {
 	case "Put":
 		s.modelPut(s.d.At(op.A[0]), s.val(op))
+	case "PutSame":
+		k, v := s.samePair(op)
+		s.modelPut(k, v)
 	case "Remove":
 		if i := s.findKey(s.d.At(op.A[0])); i >= 0 {
 			s.ents = slices.Delete(slices.Clone(s.ents), i, i+1)
@@ -319,6 +335,9 @@ func (s *kvSubj[K]) GenOp(r *Rng, id int, c *Client) Op {
 		return Op{ID: id, N: "Remove", A: []int{k}}
 	case "reput":
 		if k, ok := presentKey(); ok {
+			if r.P(1, 4) {
+				return Op{ID: id, N: "PutSame", A: []int{k}}
+			}
 			return put(k)
 		}
 		return put(r.Intn(dom))
@@ -339,6 +358,9 @@ func (s *kvSubj[K]) GenOp(r *Rng, id int, c *Client) Op {
 		return put(r.Intn(dom))
 	}
 	// churn
+	if k, ok := presentKey(); ok && r.P(1, 20) {
+		return Op{ID: id, N: "PutSame", A: []int{k}} // the pair the map holds already
+	}
 	switch r.Weighted(10, 6, 1) {
 	case 0:
 		return put(r.Intn(dom))
@@ -394,6 +416,13 @@ func (s *kvSubj[K]) Step(op Op, o *Oracle) {
 	switch op.N {
 	case "Put":
 		k, v := s.d.At(op.A[0]), s.val(op)
+		n := 1
+		if bidi {
+			n = 6
+		}
+		s.counted(o, "Put", n, func() { s.m.Put(k, v) })
+	case "PutSame":
+		k, v := s.samePair(op)
 		n := 1
 		if bidi {
 			n = 6
